@@ -471,7 +471,7 @@ def parse_template(path):
                         cur_rw = {'optional': w[0] != 'rw!', 'rule': w[1], 'ordinal': (0 if w[2] == '#*' else int(w[2][1:])) if len(w) > 2 and w[2].startswith('#') else None}
                         mode = 'rw_old'
                     elif w[0] == 'closure':
-                        cur_rw = {'rule': 'R5c', 'ordinal': int(w[1][1:]) if len(w) > 1 and w[1].startswith('#') else None}
+                        cur_rw = {'rule': 'R5c', 'optional': True, 'ordinal': int(w[1][1:]) if len(w) > 1 and w[1].startswith('#') else None}
                         mode = 'rw_old'
                     elif w[0] == 'sigrw':
                         cur_rw = {'rule': w[1], 'sig': True, 'ordinal': None, 'optional': False}
@@ -929,7 +929,22 @@ def apply_splices(text, d, log):
     for sp in d.splices:
         a, b = find_span(text, sp['anchor'], sp['ordinal'], 'splice anchor')
         ins = '\n'.join((l + GHOST_MARK) if l.strip() else l for l in sp['lines'].split('\n'))
-        if sp['where'] == 'before_stmt':
+        if sp['where'] == 'block_end':
+            # before the closing brace of the block that follows the anchor (e.g. the body of `loop`)
+            j = b
+            while text[j] in ' \t\r\n':
+                j += 1
+            # skip loop specs that were spliced after the header: find the first '{' at depth 0
+            depth = 0
+            for tk in sig(lex(text[b:])):
+                if tk.kind == 'punct' and tk.text == '{' and depth == 0:
+                    j = b + tk.start
+                    break
+                if tk.kind == 'punct' and tk.text in '([': depth += 1
+                elif tk.kind == 'punct' and tk.text in ')]': depth -= 1
+            end = find_matching(text, j)
+            text = text[:end - 1] + '\n' + ins + '\n' + text[end - 1:]
+        elif sp['where'] == 'before_stmt':
             # before the beginning of the statement containing the anchor: previous ';' '{' '}' at depth 0 (scanning backwards)
             toks_before = sig(lex(text[:a]))
             depth = 0
